@@ -894,9 +894,38 @@ class CmpVisEdgeRotation
         {
             // Dummy ShapeConnectionPin edges are not orthogonal and 
             // therefore can't be compared in the same way.
-            if (u->isOrthogonal() && v->isOrthogonal())
+            const bool uOrthogonal = u->isOrthogonal();
+            const bool vOrthogonal = v->isOrthogonal();
+            if (uOrthogonal && vOrthogonal)
             {
                 return u->rotationLessThan(_lastPt, v);
+            }
+            if (uOrthogonal != vOrthogonal)
+            {
+                // Explore the dummy edges first.
+                return vOrthogonal;
+            }
+            // Order the dummy edges by the positions of their endpoints 
+            // rather than by their addresses, so that the order in which 
+            // they are explored (and hence the choice between equal-cost
+            // routes) does not depend on where the edges were allocated.
+            std::pair<Point, Point> uPts = u->points();
+            std::pair<Point, Point> vPts = v->points();
+            if (uPts.second < uPts.first)
+            {
+                std::swap(uPts.first, uPts.second);
+            }
+            if (vPts.second < vPts.first)
+            {
+                std::swap(vPts.first, vPts.second);
+            }
+            if (uPts.first != vPts.first)
+            {
+                return uPts.first < vPts.first;
+            }
+            if (uPts.second != vPts.second)
+            {
+                return uPts.second < vPts.second;
             }
             return u < v;
         }
